@@ -246,394 +246,277 @@ Fill // c155a
 } // c165a
   // c165b
 ")).
-Eval vm_compute in ("<<<M1563>>>" ++ check (runes_of_ascii "options {StringPrefixLenType
-	= u16
-    ; ArrayPrefixLenType=
-u16 ;} packet SampleBinary{ 
-uint16 
-MsgType
-    `" ++ [28040; 24687; 31867; 22411]%N ++ runes_of_ascii "`	, 
-u16 BodyLenght @lengthOf( Body
-    ) 
-`" ++ [28040; 24687; 20307; 38271; 24230]%N ++ runes_of_ascii "` 
-,
-	match MsgType
-
-as Body 
-{ 
-1:
-Logon  , 
-2 : 
-Logout,
-
-3 : Heartbeat
-    ,4
-:
-    RiskControlRequest  ,
-5
-
-    : RiskControlResponse
-
+Eval vm_compute in ("<<<M271>>>" ++ check (runes_of_ascii "// packet A { u8 x, }
+packet string_ {
+@tag( 4294967296)
+@calculatedFrom( """ ++ [128512]%N ++ runes_of_ascii """ )@calculatedFrom( ""1"" )  leftPad @lengthOf( //	t
+int )  ``
+// `tick` ""quote"" 'q'
+//
+, repeat Packet{ zchar[
+0
+    // packet A { u8 x, }
+    ]options1 `line1
+line2` , },
+    @calculatedFrom( """"	) float32
+    u8x
     ,
-}  ,
-	@calculatedFrom( ""CRC32"" )u32
-Ckecksum`" ++ [26657; 39564; 21644]%N ++ runes_of_ascii "` ,}packet
-
-Logon
-
-{ @leftPad 
-('0' )
-
-    char[
-    10
-
-    ]
-    UserName
-
-    `" ++ [29992; 25143; 21517]%N ++ runes_of_ascii "` ,
-
-    string	Password
-
-    `" ++ [23494; 30721]%N ++ runes_of_ascii "`
-
-,
-	uint64
-    ClientId
-
-`" ++ [23458; 25143; 31471]%N ++ runes_of_ascii "ID`,  u16
-    HeartbeatInterval
-	`" ++ [24515; 36339; 38388; 38548]%N ++ runes_of_ascii "` ,}	packet Logout  { @rightPad
-    (
-    '0'
-
+float , i64_
+{ packetx {  i16	falsey, f32 repeatCount
+    `{ , }`,} ,
+    repeat char[
+0  ] i8i8, string	o @lengthOf( options1 ) , } , i64_
+@calculatedFrom(""a\""b"" )
+/// triple
+//x
+`a\`  , @rightPad ( )@lengthOf( packetx
     )
-
-    char[ 10 ]
-	UserName
-    `" ++ [29992; 25143; 21517]%N ++ runes_of_ascii "`  ,
-	uint64
-    ClientId
-`" ++ [23458; 25143; 31471]%N ++ runes_of_ascii "ID`  , } 
-packet
-
-    Heartbeat
-{ }
-	packet RiskControlRequest
-
-    {string UniqueOrderId
-	`" ++ [21807; 19968; 35746; 21333; 21495]%N ++ runes_of_ascii "`
-	, 
-char[
-
-16
-]
-ClOrdID
-`" ++ [23458; 25143; 35746; 21333; 21495]%N ++ runes_of_ascii "`,char[
-
-3
-
-]
-	MarketID`" ++ [24066; 22330]%N ++ runes_of_ascii "id` ,
-
-char[
-	12
-
-    ]  SecurityID
-	`" ++ [35777; 21048; 20195; 30721]%N ++ runes_of_ascii "` 
-,
-
-char Side
-
-`" ++ [20080; 21334; 26041; 21521]%N ++ runes_of_ascii "`
+match matchKey as stringy{ ""a	b"":
+body,}
     ,
-    char
-    OrderType
-
-    `" ++ [35746; 21333; 31867; 22411]%N ++ runes_of_ascii "`  ,	u64 Price
-
-    `" ++ [20215; 26684]%N ++ runes_of_ascii "`  , 
-u32
-
-Qty  `" ++ [25968; 37327]%N ++ runes_of_ascii "`  , 
-repeat string
-    ExtraInfo
-	`" ++ [38468; 21152; 20449; 24687]%N ++ runes_of_ascii "` ,
-repeat
-
-    SubOrder
-{ char[
-16 ]
-
-ClOrdID`" ++ [23376; 35746; 21333; 21495]%N ++ runes_of_ascii "`
-
-    ,
-u64
-Price  `" ++ [23376; 35746; 21333; 20215; 26684]%N ++ runes_of_ascii "`
-, u32	Qty
-`" ++ [23376; 35746; 21333; 25968; 37327]%N ++ runes_of_ascii "`
-, },
-    }
-packet RiskControlResponse	{
-
-    string UniqueOrderId
-    `" ++ [21807; 19968; 35746; 21333; 21495]%N ++ runes_of_ascii "`  ,
-i32
-    Status`" ++ [29366; 24577]%N ++ runes_of_ascii "`
-
-,
-string
-Msg`" ++ [32467; 26524; 20449; 24687]%N ++ runes_of_ascii "`,  repeat 
-Detail
-,
-}
-packet Detail 
-{ string RuleName  `" ++ [35268; 21017; 21517; 31216]%N ++ runes_of_ascii "`,
-
-    u16 Code
-
-`" ++ [21407; 22240; 20195; 30721]%N ++ runes_of_ascii "`	,  }
-")).
-Eval vm_compute in ("<<<M1579>>>" ++ check (runes_of_ascii "  // `tick` ""quote"" 'q'
-packet	crc
-
-    {  @tag( 0  ) 	 //x
-
-chars,
-    i8i8 @lengthOf(
-
-    packetx
-	) ,repeat 
-f32a{match
-
-packetx
-as 
-a1
-
-{""x y""  :  
-  //
-	// `tick` ""quote"" 'q'
-  Packet,
-} 
-,
-
-},  @leftPad
-
-    ( 
-'\x00')
-    uint8  int  ,
-	match 
-float as
-
-a1
-{ 
-    // `tick` ""quote"" 'q'
-	[ 
-4294967296 ]	:// " ++ [27880; 37322]%N ++ runes_of_ascii "
-    Packet ,
-	} 	 //
-	,
-repeat  zchar[007  ] zchar
-`tab	here`,
-	repeat 
-
     // " ++ [27880; 37322]%N ++ runes_of_ascii "
-  	// a // b
-	x
+    @lengthOf(
+u128
+) @calculatedFrom(
+    ""`tick`"" ) @rightPad
+    () // @lengthOf(
+repeat falsey
+string_ `" ++ [28040; 24687; 31867; 22411]%N ++ runes_of_ascii "`
+    ,string As`it's`
+    ,
+@calculatedFrom( """ ++ [28040; 24687]%N ++ runes_of_ascii """ ) repeat rootA { float64
+body	,
+} , } options {zchar
+=
+    // " ++ [128512]%N ++ runes_of_ascii " emoji
+    true  ;  i8i8= 3; } packet	leftPad{	@calculatedFrom(
+    // c
+    """" ) //x
+@leftPad( ' ' )
+@calculatedFrom(
+""abc"" ) repeat MetaDataX{  char[] Pad , body
+@lengthOf( Foo )
+/// triple
+/// triple
+,uint64 i8i8 ,char[ 42 ]options1
+@calculatedFrom( ""x y""
+),}
+,
+} packet stringy
+    /// triple
+    {	@calculatedFrom( """ ++ [28040; 24687]%N ++ runes_of_ascii """ )BodyLength	len
+    ,@lengthOf(
+u
+    ) i8i8
+metadata
+, @calculatedFrom(
+""a\\""
+) //x
+packetx
+    ,
+    f64 i8i8	@lengthOf( Header
+    )
+    , metadata
+`
+`,@lengthOf( int ) repeat falsey	,
+repeat char[]
+trueish
+,
+    }
+")).
+Eval vm_compute in ("<<<M1716>>>" ++ check (runes_of_ascii "options {
+    BodyLength = char[7];
+}
+
+// c
+// @lengthOf(
+packet asx {
+    int16 x_y_z,
+    @calculatedFrom("""")
+    @lengthOf(chars)
+    //
+    repeat repeatCount charz,
+    @leftPad()
+    i64_ @calculatedFrom(""\" ++ [233]%N ++ runes_of_ascii """) `// not a comment`,
+    tag Z9_ `two words`,
+    @lengthOf(asx)
+    @calculatedFrom(""`tick`"")
+    match uint8x as matchKey {
+        0123456789 : u8x,
+        1 : zchar,
+    },
+    u128 @lengthOf(u128),
+}
+
+MetaData msg_type {
+    string BodyLength `two words`,
+    options1 i64_,
+}// " ++ [128512]%N ++ runes_of_ascii " emoji
+
+packet roots {
+    u ``,
+    @calculatedFrom(""a	b"")
+    match len as msg_type {
+        // c
+        """ ++ [28040; 24687]%N ++ runes_of_ascii """ : charz,
+    },
+    crc @calculatedFrom(""it's"") `a\`,
+    @leftPad('0')
+    @tag(007)
+    zchar[3] falsey,
+    @calculatedFrom(""\n"")
+    @calculatedFrom(""CRC32"")
+    // trailing space 
+    match Packet as stringy {
+        1 : Pad,
+        ""it's"" : f32a,
+    },
+    @leftPad(' ')
+    match int as a1 {
+        [0123456789, 255] : options1,
+        //x
+        //x
+    },
+    BodyLength @calculatedFrom(""" ++ [28040; 24687]%N ++ runes_of_ascii """),
+    float32 zchar @calculatedFrom(""// no comment""),
+    @tag(10)
+    zchar[1] rootA,
+}")).
+Eval vm_compute in ("<<<M1536>>>" ++ check (runes_of_ascii "
+options
+	//x
+  	// @lengthOf(
+	  {Foo
+= ""// no comment""
+	    /// triple
+	//	t
+  	;} packet 
+float
+
+    {
+
+}
+packet
+	len 
+{ @lengthOf(
+    _x  )stringy {
+	metadata
+
+    @calculatedFrom(
+
+""a\\""
+
+    ) 
 ,
 	}
-    packet
-
-    string_ 
-// c
-  { char[
-    0123456789
-    ] a1
-    ,
-	@calculatedFrom(
-
-    ""a\\""
-    ) 
-@tag( 42
-	)@leftPad(
-	'\x00'
-    ) options1
-@calculatedFrom(""" ++ [28040; 24687]%N ++ runes_of_ascii """
-)
-`it's`
 ,
-
-    repeat  rootA// packet A { u8 x, }
-{ 
-
-//
-    match
-Logon as
-	Packet
-
-{[10 
-, 255 
-,
-
-0
-,	007 
-, 
-""CRC32""
-	,	""abc""
-
-    ]
-
-: len
-	,""" ++ [28040; 24687]%N ++ runes_of_ascii """ : 
-a1 , }	, match
-    leftPad
-
-    as
-	Header {
-
-    007  :
-As
-,255
-:
-repeatCount
-
-    ,	/// triple
-""""// packet A { u8 x, }
-  : 
-matchKey 	 //
-    	,  [ 255 , 
-3 
-,
-
-    ""abc""
-
-,
-""""	,
-
-""\n"" ,
-    1  ,"""" // " ++ [27880; 37322]%N ++ runes_of_ascii "
-	,
-42 //x
-
-	] :pack, } ,} 
-	// @lengthOf(
-  	// `tick` ""quote"" 'q'
-,
-    int 
-{
-
-    int64
-
-chars,
-}// @lengthOf(
-	, } ")).
-Eval vm_compute in ("<<<M1651>>>" ++ check (runes_of_ascii "options {
-    FixedStringPadFromLeft = true;
-    FixedStringPadChar = '0';
-}
-
-packet Leg {
-    InPrice0 {
-        repeat string clOrdID,
-        int16 msgKind,
-        zchar[5] Px,
-    },
-    i16 f1,
-    repeat f64 Side2,
-    string Acct,
-}
-
-packet Cancel {
-    zchar[4] clOrdID,
-    string seqNo,
-    Leg,
-    @leftPad('0')
-    char[11] OrderId,
-}
-
-packet Quote {
-    repeat char[4] sym,
-    f64 OrderId,
-    repeat Leg,
-    repeat i64 f1,
-    int16 Note,
-    zchar[3] count,
-}
-
-root packet Ack {
-    @leftPad(' ')
-    char[10] sym,
-    InPx60 {
-        Cancel,
-        repeat char[1] f1,
-        string Tail,
-        repeat InNote55 {
-            int8 count,
-            f64 f1,
-            repeat Cancel,
-        },
-        char[] tag7,
-        repeat string msgKind,
-    },
-    u8 lastPx,
-    match lastPx as Body {
-        152 : Quote,
-        173 : Cancel,
-        4 : Leg,
-    },
-    u16 Ref @calculatedFrom(""CR\
-    C32""),
-}")).
-Eval vm_compute in ("<<<M237>>>" ++ check (runes_of_ascii "root
-    packet
-    asx { // `tick` ""quote"" 'q'
-f32a	,
-@calculatedFrom(
-""abc"") zchar[ 65535 ]	metadata `
-` , @calculatedFrom(// " ++ [128512]%N ++ runes_of_ascii " emoji
-""CRC32"" // `tick` ""quote"" 'q'
-) Header `doc`
-    // @lengthOf(
-    , match
-f32a as
-msg_type
-// @lengthOf(
 //x
-{ [ ""\n"" ] /// triple
-:
-charz// @lengthOf(
-0123456789 :
-pack
-    // `tick` ""quote"" 'q'
-    ,//x
-[ ""packet"" , """",
-    // @lengthOf(
-    ""`tick`"" ,
-    ""CRC32"" , ""\n"" ,
-// `tick` ""quote"" 'q'
+	  //
+	}  packet
+
+asx { @tag( 0
+    )  repeat
+    float64
+	A  `say ""hi""` , 
+  //
 // trailing space 
-""it's""//	t
+  i16  int`say ""hi""`,@calculatedFrom(
+
+    """ ++ [128512]%N ++ runes_of_ascii """
+) lengthOf Header `two words`  , f32a zchar , @rightPad
+	(
+    '0' ) repeat	string_ 
+// packet A { u8 x, }
+	chars
+
+``
+    , @tag(
+4294967296	)
+@calculatedFrom(
+
+""a	b"" )
+    repeat
+
+msg_type
+, @leftPad
+( 
+)
+
+    repeat f64
+_x
 ,
-""it's"", //
-4294967296 ]
-:
-charz
-42
-    : leftPad , [
-255 ,	7 , ""packet"" , // trailing space 
-""{,}""
-    , ""\" ++ [233]%N ++ runes_of_ascii """ ,""1""
-    ,	""1""  ] : msg_type
-,
-    [ """ ++ [128512]%N ++ runes_of_ascii """
-    ]:  i64_ } ,  }packet body { } root packet i64_
-    { uint16  Header @calculatedFrom(
-""" ++ [233]%N ++ runes_of_ascii "t" ++ [233]%N ++ runes_of_ascii """ )
-    ``
-    ,float64 string_@calculatedFrom( // a // b
-""`tick`"") , repeat zchar[ // @lengthOf(
-1] packetx`it's` ,
-} //	t")).
-Eval vm_compute in ("<<<M1614>>>" ++ check (runes_of_ascii "MetaData x {
+repeat As{  Logon @lengthOf(	calculatedFrom)
+`two words`  ,
+    repeat
+u64 o
+
+    `u8 x,` ,}
+	, @calculatedFrom(""packet"" )
+repeat// @lengthOf(
+    uint8
+    u	,}
+packet
+
+    uint8x 
+{@leftPad	('0' ) 
+
+    //	t
+//x
+  zchar[ 
+    // packet A { u8 x, }
+    // " ++ [27880; 37322]%N ++ runes_of_ascii "
+
+255]	metadata
+
+    `a\`
+	,	//
+
+	} // `tick` ""quote"" 'q'
+ 
+")).
+Eval vm_compute in ("<<<M1576>>>" ++ check (runes_of_ascii "root packet asx {
+    leftPad {
+        u128 @calculatedFrom(""1""),//x
+    },
+    lengthOf @calculatedFrom(""" ++ [128512]%N ++ runes_of_ascii """) `a\`,
+    i64 Packet @lengthOf(calculatedFrom),
+    @calculatedFrom(""" ++ [233]%N ++ runes_of_ascii "t" ++ [233]%N ++ runes_of_ascii """)
+    stringy a1 `doc`,
+    @rightPad()
+    // c
+    a1 `a\`,
+    char Header @lengthOf(x) `say ""hi""`,
+    uint8x Z9_ `tab	here`,
+}
+
+options {
+    calculatedFrom = 0
+}
+
+packet metadata {
+    @leftPad('\x00')
+    f32 pack,
+    @tag(65535)
+    u32 uint8x @lengthOf(repeatCount) ``,
+    MetaDataX {
+        repeat options1,
+        match matchKey as len {
+            """ ++ [128512]%N ++ runes_of_ascii """ : u8x,
+            1 : zchar,
+            /// triple
+            [""a\\"", ""x y""] : charz,
+            0 : x_y_z,
+            [4294967296] : asx,
+            [""a\""b"", ""\n"", ""\" ++ [233]%N ++ runes_of_ascii """, 10] : _x,
+        },
+        uint8 metadata @lengthOf(float),
+        zchar[255] i8i8,
+    },
+}
+
+root packet f32a {
+}")).
+Eval vm_compute in ("<<<M1596>>>" ++ check (runes_of_ascii "MetaData x {
     len crc,
     float asx,
     i32 uint8x `line1
@@ -674,109 +557,72 @@ packet pack {
     @tag(7)
     repeatCount @calculatedFrom(""packet"") `{ , }`,
 }")).
-Eval vm_compute in ("<<<M1456>>>" ++ check (runes_of_ascii "  // top
-packet  // c0a
-  	// c0b
-
-  Sub// c1
-    	{ 
-	// c2
-u8	// c3a
-    // c3b
-  	a
-    // c4
-		, // c5
-    @calculatedFrom( ""CRC16""
+Eval vm_compute in ("<<<M344>>>" ++ check (runes_of_ascii "options // a // b
+{	}
+    packet i8i8 { @tag(
+3 ) x
+@calculatedFrom(
+""it's""	) , @lengthOf( f32a ) match
+rootA
+as uint8x // @lengthOf(
+{ 0 : string_ 42 : Packet } , @leftPad
+(
+    '\x00'
+) i64_ packetx `u8 x,` ,
+    @calculatedFrom(""x y"" ) matchKey {len  ,
+    }  ,
+@lengthOf(  matchKey
 )
-
-// c8
-    i32  // c9
-
-	SubSum  
-      // c10
-  ,
-}  // c12
-	  root
-packet // c14a
-	// c14b
-	Frame 	 // c15
-      { 
-    // c16
-  u16 
-
-    // c17
-	MsgType// c18a
-    // c18b
-		,	// c19
-u16 	 // c20a
-  // c20b
-  BodyLen // c21a
-	// c21b
-  @lengthOf( Body
-	)
-    ,	// c25a
-      // c25b
-    Sub
-
-// c26
-
-Body // c27
-  , 
-
-    // c28
-
-	string 	 // c29a
-  	// c29b
-  	note	// c30a
-	// c30b
-
-,
-	    // c31
-		@calculatedFrom(// c32
-  ""CRC16"" )i32
-
-Checksum 	 // c36a
-    // c36b
-    , // c37a
-  	// c37b
-	u8// c38
-  tail
-,
-}  
-  // c41
-")).
-Eval vm_compute in ("<<<M147>>>" ++ check (runes_of_ascii "root
-    packet falsey{	@tag( 255) len@calculatedFrom( ""`tick`""
-    )//
-,match MetaDataX as
-crc
-{	[7 ] :
-    roots ,} ,	@tag( 10 ) @tag(
-// `tick` ""quote"" 'q'
-// `tick` ""quote"" 'q'
-10//
-) @tag( 255)	repeat /// triple
-uint64 rootA	, tag // a // b
-`" ++ [28040; 24687; 31867; 22411]%N ++ runes_of_ascii "` ,
-float32  i64_ , int64 _x  `doc` , @leftPad( ' '
-    )
-match
-// @lengthOf(
-// @lengthOf(
-i8i8 as pack { // `tick` ""quote"" 'q'
-7 : Logon , ""x y"" : lengthOf , } , // trailing space 
-match x_y_z as u
-{
-// `tick` ""quote"" 'q'
+    @calculatedFrom(// `tick` ""quote"" 'q'
+""abc"" ) @lengthOf( x_y_z )
+    /// triple
+    repeat metadata `line1
+line2` ,lengthOf repeatCount , /// triple
+int32
 // " ++ [27880; 37322]%N ++ runes_of_ascii "
-[ 0123456789 ] :	packetx ,007 :x_y_z
-// trailing space 
-//
-, 10 : rootA , 7 : u 0123456789 :falsey
-, }	, // packet A { u8 x, }
-}
+//	t
+roots @calculatedFrom( ""`tick`"")
+`" ++ [233]%N ++ runes_of_ascii "` , zchar[
+1	]	Packet	@calculatedFrom(	""// no comment"" ) ,} packet
+    options1
+{ @lengthOf(
+    uint8x ) A @calculatedFrom( ""it's""
+    )
+`doc`, } root packet crc
+{char[	65535	]chars
+,}
 ")).
-Eval vm_compute in ("<<<M1803>>>" ++ check (runes_of_ascii "
+Eval vm_compute in ("<<<M1893>>>" ++ check (runes_of_ascii "root packet lengthOf {
+    // a // b
+    match i64_ as options1 {
+        ""// no comment"" : f32a,
+        65535 : falsey,
+    },
+    @tag(0)
+    char[] body @lengthOf(lengthOf),
+    u64 string_ `it's`,
+    @lengthOf(string_)
+    crc {
+        repeat zchar[3] u,
+        pack `a\`,
+        char[] crc ``,
+    },
+    int16 metadata `line1
+        line2`,
+}
+
+root packet leftPad {
+    repeat zchar[4294967296] MetaDataX,
+    @tag(10)
+    match tag as falsey {
+        7 : BodyLength,
+        0 : i64_,
+    },
+    repeat char[255] A,
+    char[7] trueish @calculatedFrom(""a\\"") `two words`,
+    i16 Logon,
+}")).
+Eval vm_compute in ("<<<M1729>>>" ++ check (runes_of_ascii "
 
   packet	leftPad//
   	{
@@ -824,38 +670,53 @@ options1
     ]	f32a
 
     ,}  // a // b")).
-Eval vm_compute in ("<<<M1349>>>" ++ check (runes_of_ascii "options {
-    ArrayPrefixLenType = u64;
-    FixedStringPadFromLeft = true;
-    FixedStringPadChar = '0';
-}
-packet Quote {
-}
-packet Ack {
-    repeat InNote66 {
-        u8 pad0,
-    },
-}
-packet Reject {
-}
-root packet Order {
-    Quote,
-    repeat Reject,
-    string venue,
-    string seqNo,
-    uint32 Ref,
-    u16 lastPx,
-    u32 clOrdID @lengthOf(Body),
-    match lastPx as Body {
-        190 : Reject,
-        186 : Quote,
-        22 : Ack,
-    },
-    u16 Flags @calculatedFrom(""CR\
-C32""),
-}
+Eval vm_compute in ("<<<M1119>>>" ++ check (runes_of_ascii "// top
+root // c0
+packet // c1
+_x // c2
+{ // c3
+match // c4
+Foo // c5
+as // c6
+Z9_ // c7
+{ // c8
+""a	b"" // c9
+: // c10
+Pad // c11
+, // c12
+} // c13
+, // c14
+repeat // c15
+x // c16
+`line1
+line2` // c17
+, // c18
+@rightPad // c19
+( // c20
+' ' // c21
+) // c22
+@calculatedFrom( // c23
+""a\\"" // c24
+) // c25
+metadata // c26
+MetaDataX // c27
+, // c28
+@tag( // c29
+0 // c30
+) // c31
+Logon // c32
+int // c33
+`` // c34
+, // c35
+} // c36
+options // c37
+{ // c38
+T // c39
+= // c40
+'\x00' // c41
+} // c42
 ")).
-Eval vm_compute in ("<<<M1429>>>" ++ check (runes_of_ascii "options {
+Eval vm_compute in ("<<<M1491>>>" ++ check (runes_of_ascii "options {
     LittleEndian = true;
     StringPrefixLenType = u64;
     ArrayPrefixLenType = u16;
@@ -879,210 +740,254 @@ root packet Logout {
         25 : Logon,
     },
     u16 Qty @calculatedFrom(""CR\
-        C32""),
+    C32""),
 }")).
-Eval vm_compute in ("<<<M126>>>" ++ check (runes_of_ascii "
-packet T// c
-{ @tag(  00 )repeat char[]	charz
-`
-` , char[0123456789 ]BodyLength
-    @lengthOf( //x
-Z9_
-    )
+Eval vm_compute in ("<<<M306>>>" ++ check (runes_of_ascii "packet rootA { @tag(0123456789 ) options1 {int32 uint8x
     `u8 x,`
-,
-}	MetaData
-crc {
-float64
-int `" ++ [28040; 24687; 31867; 22411]%N ++ runes_of_ascii "`// a // b
-,	As Logon `` , // `tick` ""quote"" 'q'
-uint8 // " ++ [27880; 37322]%N ++ runes_of_ascii "
-u
-, u32  stringy `
-`,
-// a // b
-//	t
-uint64 uint8x , asx
-calculatedFrom	,//x
-} MetaData chars { char[ 1
-    // `tick` ""quote"" 'q'
-    ] //	t
-chars ,
-    } // trailing space ")).
-Eval vm_compute in ("<<<M75>>>" ++ check (runes_of_ascii "packet zchar { @calculatedFrom( ""`tick`""
-) uint32
-    falsey,} MetaData packetx {
-string
-//
-// @lengthOf(
-msg_type `u8 x,`, }packet i8i8 {zchar@lengthOf(
-uint8x
-    ) ,
-    }packet As{ zchar[ 4294967296
-    // " ++ [27880; 37322]%N ++ runes_of_ascii "
-    ] T	@calculatedFrom( ""abc"" ) , @tag(007 )
-    repeat
-    i16
-// " ++ [27880; 37322]%N ++ runes_of_ascii "
+    , u8x
+//x
 // packet A { u8 x, }
-u8x `say ""hi""`, @lengthOf( u )
-repeat uint16 u128 , }")).
-Eval vm_compute in ("<<<M1467>>>" ++ check (runes_of_ascii "packet a1 {
-    @leftPad()
-    float @lengthOf(uint8x),
+{
+    match Header as
+    metadata {[	10 ]
+: pack } ,
+    } , f64 // `tick` ""quote"" 'q'
+chars , }
+, @lengthOf( body ) u64
+// @lengthOf(
+//
+Z9_ , }
+MetaData repeatCount
+    {zchar[10 ] string_ , f64 A
+, u32 BodyLength , zchar[ 00 ] uint8x ,
+    trueish
+leftPad,char[ 65535  ] rootA	, }
+//	t
+")).
+Eval vm_compute in ("<<<M1378>>>" ++ check (runes_of_ascii "
+options { LittleEndian
+
+    =
+	true
+
+    ; }	packet
+	Logon {u8 
+x
+    , }	packet	Logout
+
+    {  u16
+
+reason ,}
+root
+packet  Frame
+
+    {
+u8 Kind ,
+
+    u8
+	Kind2 ,
+
+match
+Kind
+	as Body	{
+
+    1	:  Logon 
+, [ 2 ,
+
+3 
+,
+	4
+
+    ]
+    :
+
+Logout	,
+100
+
+:  Logon 
+,}  ,
+    match
+    Kind2
+
+    as	Trailer
+
+    {0
+
+    :
+
+Logout
+, } 
+,	}")).
+Eval vm_compute in ("<<<M1191>>>" ++ check (runes_of_ascii "// top
+MetaData // c0
+uint8x // c1
+{ // c2
+char[] // c3
+f32a // c4
+`// not a comment` // c5
+, // c6
+float32 // c7
+roots // c8
+, // c9
+char[ // c10
+7 // c11
+] // c12
+u8x // c13
+, // c14
+zchar[ // c15
+10 // c16
+] // c17
+f32a // c18
+, // c19
+u64 // c20
+pack // c21
+, // c22
+u16 // c23
+pack // c24
+, // c25
+} // c26
+")).
+Eval vm_compute in ("<<<M287>>>" ++ check (runes_of_ascii "root // trailing space 
+packet int {
+    f32a @calculatedFrom(""packet"" )
+    `
+`
+    , } options
+{
+    rootA
+    // @lengthOf(
+    =
+""\" ++ [233]%N ++ runes_of_ascii """; }
+    packet
+i8i8 {
+    // trailing space 
+    uint8
+    uint8x
+    @lengthOf( string_ ) //	t
+, i32 tag //	t
+@lengthOf(
+Logon )  , }")).
+Eval vm_compute in ("<<<M242>>>" ++ check (runes_of_ascii "packet len{} options	{ Z9_ =  4294967296;
+_x =// a // b
+0
+    f32a = zchar[42	] ; } root packet
+    // @lengthOf(
+    BodyLength // trailing space 
+{ }options {
+string_ =u32	;	charz =
+/// triple
+// packet A { u8 x, }
+string
+; } packet len { }")).
+Eval vm_compute in ("<<<M1612>>>" ++ check (runes_of_ascii "
+packet  Logon	{
+    string
+	user  ,}
+root 
+packet Frame{ u8 K,
+
+    match  K  as Body
+
+    {
+1:
+    Logon , 2
+    :Logout ,  } 
+,
+    Tail
+,}packet  Logout
+{
+	u16 reason
+,
+	}
+
+packet 
+Tail
+
+    {u32
+
+crc 
+,}
+")).
+Eval vm_compute in ("<<<M1752>>>" ++ check (runes_of_ascii "root packet Frame {
+    u8 K,
+    Logon first,
+    match K as Body {
+        1 : Logon,
+        2 : Logout,
+    },
 }
 
 packet Logon {
-    char Logon @calculatedFrom(""a\\""),
-    T stringy,
-    //
-    // c
-    repeat uint8 stringy `two words`,
+    string user,
 }
 
-MetaData charz {
-    u tag `
-    `,
-    a1 falsey,//x
-    Z9_ matchKey,
-    f64 lengthOf `a\`,
-    f32a roots ``,
-    float64 x_y_z,
+packet Logout {
+    u16 reason,
 }")).
-Eval vm_compute in ("<<<M35>>>" ++ check (runes_of_ascii "  packet Header
-{ @calculatedFrom( // a // b
-""a	b"" )
-char[
-    255] falsey `tab	here`,int8
-    // " ++ [27880; 37322]%N ++ runes_of_ascii "
-    u
-`doc` , float32 lengthOf
-    @calculatedFrom(
-""a	b""  )
-    // a // b
-    , @rightPad (
-' '  ) @tag( 3
-) float64 asx
-    ,
-int8 metadata @lengthOf(zchar )// a // b
-,Pad f32a , }")).
-Eval vm_compute in ("<<<M1291>>>" ++ check (runes_of_ascii "// top
-root
-    // c0
-packet
-    // c1
-P // c2a
-  // c2b
-{ // c3
-u8 // c4
-s_u8 // c5a
-  // c5b
-, // c6
-repeat u8 // c8a
-  // c8b
-r_u8 // c9a
-  // c9b
-,
-    // c10
-u16 // c11a
-  // c11b
-b_len // c12a
-  // c12b
-, // c13a
-  // c13b
-} // c14a
-  // c14b
-")).
-Eval vm_compute in ("<<<M1929>>>" ++ check (runes_of_ascii "root packet string_ {
-    @leftPad(' ')
-    chars {
-        repeat zchar[0] tag,
-        string falsey,// " ++ [128512]%N ++ runes_of_ascii " emoji
-        repeat char[007] body `two words`,
+Eval vm_compute in ("<<<M1746>>>" ++ check (runes_of_ascii "packet crc {
+    @leftPad()
+    repeat charz float,
+}
+
+root packet options1 {
+    @tag(65535)
+    packetx {
+        u128,
+        f32 a1,
     },
-    @calculatedFrom(""// no comment"")
-    Foo T,// " ++ [128512]%N ++ runes_of_ascii " emoji
-}")).
-Eval vm_compute in ("<<<M38>>>" ++ check (runes_of_ascii "options
-{ falsey
-    /// triple
-    = false ; falsey=
-    //
-    int16// `tick` ""quote"" 'q'
-;
-    // `tick` ""quote"" 'q'
-    A =
-    // trailing space 
-    u32  ;
-    trueish	= 1  ;
-    }
-")).
-Eval vm_compute in ("<<<M191>>>" ++ check (runes_of_ascii "options
-{ Logon
-=char[	00
-]
-;
-zchar
-    = false Logon =	i8
-    ;}options { asx = '0' int = ""\" ++ [233]%N ++ runes_of_ascii """  calculatedFrom= '\x00'// packet A { u8 x, }
-; // `tick` ""quote"" 'q'
 }
-")).
-Eval vm_compute in ("<<<M1869>>>" ++ check (runes_of_ascii "
-
-  packet 
-A
-
-{match
-
+// trailing space ")).
+Eval vm_compute in ("<<<M1788>>>" ++ check (runes_of_ascii "packet
+	A  { 
+match 
 k
-
-as  n
-
-    {
-[
-    ""a"" 
-,  ""bb""
-,""c c""  ,""d""
+	as
+    n
+    {	[  1
 ,
-""e"", ""f""
+	""bb"" , 007
+,
+""d""
 
-    ,""g"" 
-, ""h"" 
+    ,
+5,  ""f""
+    ,
+	7,
+    ""h"" ,
+    9,
+
+""j""
+, 11
 ]
-:  B
 
-    ,
-
-    2 
-:
+    : B
+,  2	:
     C
+}
+,
     }
-,
 
-    } ")).
-Eval vm_compute in ("<<<M1480>>>" ++ check (runes_of_ascii "
-packet 
-i64_
-{ }
-MetaData
-uint8x { Packet
-tag
-    ,
-u8	repeatCount  ,
-	x_y_z	_x
-
-    `" ++ [233]%N ++ runes_of_ascii "`  ,  zchar[
-    42
-    ]
-	crc
-	`a\`
-, 
-}
-
-    options{ }
 ")).
-Eval vm_compute in ("<<<M546>>>" ++ check (runes_of_ascii "packet uint8x
+Eval vm_compute in ("<<<M1899>>>" ++ check (runes_of_ascii "packet calculatedFrom {
+    uint8x {
+        body `line1
+        line2`,
+        string crc @lengthOf(uint8x),
+        char[] As @lengthOf(Pad),
+    },
+}")).
+Eval vm_compute in ("<<<M545>>>" ++ check (runes_of_ascii "packet uint8x
+{ match' pack
+    as msg_type	{
+    0123456789 :	float
+}
+,
+} packet //	t
+a1
+    { } options {packetx
+    = '\x00'	; u128= ""a	b""  ; }
+")).
+Eval vm_compute in ("<<<M498>>>" ++ check (runes_of_ascii "packet uint8x
 { match pack
     as msg_type	{
     0123456789 :	float
@@ -1091,146 +996,67 @@ Eval vm_compute in ("<<<M546>>>" ++ check (runes_of_ascii "packet uint8x
 } packet //	t
 a1
     { } options {packetx
-    = '\x00'	; @ u128= ""a	b""  ; }
+    ; '\x00'	; u128= ""a	b""  ; }
 ")).
-Eval vm_compute in ("<<<M448>>>" ++ check (runes_of_ascii "packet uint8x
+Eval vm_compute in ("<<<M415>>>" ++ check (runes_of_ascii "packet uint8x
 { match pack
-    as msg_type	{
+     msg_type	{
     0123456789 :	float
-=
+}
 ,
 } packet //	t
 a1
     { } options {packetx
     = '\x00'	; u128= ""a	b""  ; }
 ")).
-Eval vm_compute in ("<<<M475>>>" ++ check (runes_of_ascii "packet uint8x
-{ match pack
-    as msg_type	{
-    0123456789 :	float
-}
-,
-} packet //	t
-a1
-    {  options {packetx
-    = '\x00'	; u128= ""a	b""  ; }
-")).
-Eval vm_compute in ("<<<M703>>>" ++ check (runes_of_ascii "// @lengthOf(
-packet i8i8 { u128 o , }
-options '1'{ MetaDataX = true;
+Eval vm_compute in ("<<<M674>>>" ++ check (runes_of_ascii "// @lengthOf(
+packet i8i8 { { u128 o , }
+options { MetaDataX = true;
     BodyLength =""packet"" x_y_z= 007
 crc //x
 = ""abc"" ;
     msg_type =
 i16 }")).
-Eval vm_compute in ("<<<M1873>>>" ++ check (runes_of_ascii "packet A {
-    match k as n {
-        [
-            ""a"", ""bb"", ""c c"", ""d"", ""e"",
-            ""f"", ""g"", ""h""
-        ] : B,
-        2 : C,
-    },
-}")).
-Eval vm_compute in ("<<<M1637>>>" ++ check (runes_of_ascii "
-packet
-	uint8x  {
-match
-pack 
-as
-	msg_type
-{ 0123456789: float
-	}, }
-packet 	 //	t
-a1
-{	}options
-{
-	packetx	= 
-'\x00'
-	;
-u128 
-=	""a	b""  }
+Eval vm_compute in ("<<<M679>>>" ++ check (runes_of_ascii "// @lengthOf(
+packet { i8i8 u128 o , }
+options { MetaDataX = true;
+    BodyLength =""packet"" x_y_z= 007
+crc //x
+= ""abc"" ;
+    msg_type =
+i16 }")).
+Eval vm_compute in ("<<<M669>>>" ++ check (runes_of_ascii "// @lengthOf(
+packet i8i8 {  o , }
+options { MetaDataX = true;
+    BodyLength =""packet"" x_y_z= 007
+crc //x
+= ""abc"" ;
+    msg_type =
+i16 }")).
+Eval vm_compute in ("<<<M16>>>" ++ check (runes_of_ascii "options { }MetaData u8x { uint8x	body`crlf
+line`
+    //	t
+    , calculatedFrom body ,
+}
+    options  {
+} root packet options1
+{  }")).
+Eval vm_compute in ("<<<M1756>>>" ++ check (runes_of_ascii "MetaData leftPad {
+    chars MetaDataX,
+}
+
+packet repeatCount {
+    char[255] uint8x `" ++ [233]%N ++ runes_of_ascii "`,
+}
+
+MetaData pack {
+    As Foo,
+}// c")).
+Eval vm_compute in ("<<<M1189>>>" ++ check (runes_of_ascii "MetaData leftPad { chars MetaDataX , } packet repeatCount { char[ 255 ] uint8x `" ++ [233]%N ++ runes_of_ascii "` , } MetaData pack { As Foo , } // c
 ")).
-Eval vm_compute in ("<<<M1847>>>" ++ check (runes_of_ascii "
-
-  packet A 
-{match
-
-k	as n {	[ 1  ,
-22	,
-007, 
-4 
-,5 ,	66	,
-
-7  , 
-8  , 9 ,
-
-10,
-
-    11 ,  12
-    ]:
-B
-
-    2 :C}  ,
-
-    }
-")).
-Eval vm_compute in ("<<<M1725>>>" ++ check (runes_of_ascii "
-
-  packet
-A
-{match k as
-n
-
-    {
-
-    [
-1
-	,
-22,	""c c""  , 
-4
-	,	5
-    ,
-    ""f"" ,
-7 , 
-8
-    ]: B
-
-    , 
-2  :
-	C }
-
-, }")).
-Eval vm_compute in ("<<<M1577>>>" ++ check (runes_of_ascii "packet A {
-    Inner {
-        u8 x `a
-        b`,
-        Deep {
-            u8 y `a
-            b`,
-        },
-    },
-}")).
-Eval vm_compute in ("<<<M1163>>>" ++ check (runes_of_ascii "MetaData leftPad { chars MetaDataX , } packet repeatCount { char[ // c
-255 ] uint8x `" ++ [233]%N ++ runes_of_ascii "` , } MetaData pack { As Foo , }")).
-Eval vm_compute in ("<<<M218>>>" ++ check (runes_of_ascii "
-MetaData
-uint8x { char[ 007
-    ]leftPad ,Pad
-T ,u64 BodyLength , char[] int  ,float
-Z9_ , float32 metadata
-    , }
-")).
-Eval vm_compute in ("<<<M943>>>" ++ check (runes_of_ascii "packet A {
-    u16 len @lengthOf(body) `a
-
-b`,
-    u32 crc @calculatedFrom(""CRC32"") `a
-
-b`,
-    string body,
-}")).
-Eval vm_compute in ("<<<M535>>>" ++ check (runes_of_ascii "packet uint8x
+Eval vm_compute in ("<<<M1169>>>" ++ check (runes_of_ascii "MetaData leftPad { chars MetaDataX , } packet repeatCount { char[ 255 ] uint8x // c
+`" ++ [233]%N ++ runes_of_ascii "` , } MetaData pack { As Foo , }")).
+Eval vm_compute in ("<<<M499>>>" ++ check (runes_of_ascii "packet uint8x
 { match pack
     as msg_type	{
     0123456789 :	float
@@ -1238,146 +1064,156 @@ Eval vm_compute in ("<<<M535>>>" ++ check (runes_of_ascii "packet uint8x
 ,
 } packet //	t
 a1
-    { } opti")).
-Eval vm_compute in ("<<<M884>>>" ++ check (runes_of_ascii "packet A {
+    { } options {packetx")).
+Eval vm_compute in ("<<<M919>>>" ++ check (runes_of_ascii "packet A {
+    u16 len @lengthOf(body) `a
+b`,
+    u32 crc @calculatedFrom(""CRC32"") `a
+b`,
+    string body,
+}")).
+Eval vm_compute in ("<<<M926>>>" ++ check (runes_of_ascii "packet A {
+    Inner {
+        u8 x `a
+b`,
+        Deep {
+            u8 y `a
+b`,
+        },
+    },
+}")).
+Eval vm_compute in ("<<<M899>>>" ++ check (runes_of_ascii "packet A {
   match k as n {
-    [""a"", 22, ""c c"", 4, ""e"", 66, ""g"", 8, ""i"", 10] : B,
+    [1, 22, ""c c"", 4, 5, ""f"", 7, 8, ""i"", 10, 11] : B,
     2 : C
   },
 }")).
-Eval vm_compute in ("<<<M1479>>>" ++ check (runes_of_ascii "packet  A{
-match k
-as n
-
-    {  [1
-,
-22	,
-007
-,  4
-, 5  ,
-
-66, 
-7  , 
-8
-	,
-9]:
-	B
-2:C }
-	,}
-
-")).
-Eval vm_compute in ("<<<M869>>>" ++ check (runes_of_ascii "packet A {
-  match k as n {
-    [1, ""bb"", 007, ""d"", 5, ""f"", 7, ""h"", 9] : B,
-    2 : C
-  },
-}")).
-Eval vm_compute in ("<<<M858>>>" ++ check (runes_of_ascii "packet A {
-  match k as n {
-    [""a"", 22, ""c c"", 4, ""e"", 66, ""g"", 8] : B,
-    2 : C
-  },
-}")).
-Eval vm_compute in ("<<<M612>>>" ++ check (runes_of_ascii "
+Eval vm_compute in ("<<<M605>>>" ++ check (runes_of_ascii "
 packet
     asx {match u128 as lengthOf
 {
 //	t
 // `tick` ""quote"" 'q'
+255 : repeat ,
+    } ,	}")).
+Eval vm_compute in ("<<<M588>>>" ++ check (runes_of_ascii "
+packet
+    asx {match u128 as lengthOf
+{ {
+//	t
+// `tick` ""quote"" 'q'
 255 : x ,
-     ,	}")).
-Eval vm_compute in ("<<<M1246>>>" ++ check (runes_of_ascii "options {
-    LittleEndian = true;
-}
-root packet P {
-    repeat char cs,
-    u8 x,
-}
-")).
-Eval vm_compute in ("<<<M830>>>" ++ check (runes_of_ascii "packet A {
-  match k as n {
-    [1, ""bb"", 007, ""d"", 5, ""f""] : B,
-    2 : C
-  },
-}")).
-Eval vm_compute in ("<<<M802>>>" ++ check (runes_of_ascii "packet A {
-  match k as n {
-    [""a"", ""bb"", ""c c"", ""d""] : B,
-    2 : C
-  },
-}")).
-Eval vm_compute in ("<<<M822>>>" ++ check (runes_of_ascii "packet A {
-  match k as n {
-    [1, 22, ""c c"", 4, 5] : B
-    2 : C
-  },
-}")).
-Eval vm_compute in ("<<<M449>>>" ++ check (runes_of_ascii "packet uint8x
-{ match pack
-    as msg_type	{
-    0123456789 :	float")).
-Eval vm_compute in ("<<<M1101>>>" ++ check (runes_of_ascii "// top
-MetaData
-    // c0
-tag
-    // c1
+    } ,	}")).
+Eval vm_compute in ("<<<M564>>>" ++ check (runes_of_ascii "
+packet
+    asx match{ u128 as lengthOf
 {
-    // c2
-}
-    // c3
-")).
-Eval vm_compute in ("<<<M775>>>" ++ check (runes_of_ascii "packet A {
+//	t
+// `tick` ""quote"" 'q'
+255 : x ,
+    } ,	}")).
+Eval vm_compute in ("<<<M595>>>" ++ check (runes_of_ascii "
+packet
+    asx {match u128 as lengthOf
+{
+//	t
+// `tick` ""quote"" 'q'
+: : x ,
+    } ,	}")).
+Eval vm_compute in ("<<<M843>>>" ++ check (runes_of_ascii "packet A {
   match k as n {
-    [""a""] : B,
+    [1, ""bb"", 007, ""d"", 5, ""f"", 7] : B,
     2 : C
   },
 }")).
-Eval vm_compute in ("<<<M1813>>>" ++ check (runes_of_ascii "MetaData M {
-    u8 x `a
-    b`,
-    T t `a
-    b`,
+Eval vm_compute in ("<<<M1629>>>" ++ check (runes_of_ascii "packet A {
+    match k as n {
+        [1, ""bb"", 007] : B,
+        2 : C,
+    },
 }")).
-Eval vm_compute in ("<<<M1210>>>" ++ check (runes_of_ascii "packet body { i32 f32a `{ , }`
+Eval vm_compute in ("<<<M903>>>" ++ check (runes_of_ascii "packet A { Inner { match k as n { [1,22,007,4,5,66,7,8,9,10,11] : B, }, }, }")).
+Eval vm_compute in ("<<<M1099>>>" ++ check (runes_of_ascii "packet A {
+    match k as n {
+        1 : B // c
+        , // d
+    },
+}")).
+Eval vm_compute in ("<<<M801>>>" ++ check (runes_of_ascii "packet A {
+  match k as n {
+    [1, 22, 007, 4] : B
+    2 : C
+  },
+}")).
+Eval vm_compute in ("<<<M784>>>" ++ check (runes_of_ascii "packet A {
+  match k as n {
+    [""a"", 22] : B,
+    2 : C
+  },
+}")).
+Eval vm_compute in ("<<<M1522>>>" ++ check (runes_of_ascii "packet body {
+    // c
+    i32 f32a `{ , }`,
+}
+
+options {
+}")).
+Eval vm_compute in ("<<<M1245>>>" ++ check (runes_of_ascii "root
+    packet	P
+{repeat
+
+char 
+cs  ,u8
+
+    x ,} ")).
+Eval vm_compute in ("<<<M1214>>>" ++ check (runes_of_ascii "packet body { i32 f32a `{ , }` , }
 // c
-, } options { }")).
-Eval vm_compute in ("<<<M1895>>>" ++ check (runes_of_ascii "
+options { }")).
+Eval vm_compute in ("<<<M945>>>" ++ check (runes_of_ascii "MetaData M {
+    u8 x `a
 
-  packet
+b`,
+    T t `a
 
-    A 
-{ 
-u8
-x `d" ++ [133]%N ++ runes_of_ascii "`	,// c" ++ [133]%N ++ runes_of_ascii "
-    }
-")).
-Eval vm_compute in ("<<<M212>>>" ++ check (runes_of_ascii "packet
-    MetaDataX {i16 u128`" ++ [233]%N ++ runes_of_ascii "` , //x
+b`,
 }")).
+Eval vm_compute in ("<<<M363>>>" ++ check (runes_of_ascii "MetaData
+    // @lengthOf(
+    tag {
+    }")).
 Eval vm_compute in ("<<<M1531>>>" ++ check (runes_of_ascii "// c
     packet  asx
 	{
 }/// triple
 ")).
-Eval vm_compute in ("<<<M85>>>" ++ check (runes_of_ascii "options// c
-{MetaDataX =int16 }
-")).
-Eval vm_compute in ("<<<M983>>>" ++ check (runes_of_ascii "packet A {
- u8 x `d" ++ [12288]%N ++ runes_of_ascii "`, // c" ++ [12288]%N ++ runes_of_ascii "
+Eval vm_compute in ("<<<M105>>>" ++ check (runes_of_ascii "// " ++ [128512]%N ++ runes_of_ascii " emoji
+MetaData crc
+    {  }")).
+Eval vm_compute in ("<<<M998>>>" ++ check (runes_of_ascii "packet A {
+ u8 x `d" ++ [5760]%N ++ runes_of_ascii "`, // c" ++ [5760]%N ++ runes_of_ascii "
 }")).
-Eval vm_compute in ("<<<M419>>>" ++ check (runes_of_ascii "packet uint8x
-{ match pack")).
-Eval vm_compute in ("<<<M286>>>" ++ check (runes_of_ascii " // `tick` ""quote"" 'q'")).
-Eval vm_compute in ("<<<M1812>>>" ++ check (runes_of_ascii "// `tick` ""quote"" 'q'")).
-Eval vm_compute in ("<<<M103>>>" ++ check (runes_of_ascii "packet packetx	{ }")).
-Eval vm_compute in ("<<<M1047>>>" ++ check (runes_of_ascii "// c" ++ [8203]%N ++ runes_of_ascii "
+Eval vm_compute in ("<<<M1843>>>" ++ check (runes_of_ascii "packet
+A{ } 
+      // c" ++ [8239]%N ++ runes_of_ascii "
+ 
+")).
+Eval vm_compute in ("<<<M414>>>" ++ check (runes_of_ascii "packet uint8x
+{ match")).
+Eval vm_compute in ("<<<M59>>>" ++ check (runes_of_ascii "packet
+int {
+}
+//	t
+")).
+Eval vm_compute in ("<<<M977>>>" ++ check (runes_of_ascii "// c 
 packet A {
 }")).
-Eval vm_compute in ("<<<M1082>>>" ++ check (runes_of_ascii "options { // a
- }")).
+Eval vm_compute in ("<<<M1059>>>" ++ check (runes_of_ascii "packet A {
+}// c x")).
+Eval vm_compute in ("<<<M1228>>>" ++ check (runes_of_ascii "packet x // c
+{ }")).
 Eval vm_compute in ("<<<M319>>>" ++ check (runes_of_ascii "packet o
 {
 }
 ")).
-Eval vm_compute in ("<<<M995>>>" ++ check (runes_of_ascii "// c" ++ [5760]%N)).
-Eval vm_compute in ("<<<M727>>>" ++ check (runes_of_ascii "")).
+Eval vm_compute in ("<<<M990>>>" ++ check (runes_of_ascii "// c" ++ [133]%N)).
+Eval vm_compute in ("<<<M725>>>" ++ check (runes_of_ascii " ")).
